@@ -56,6 +56,7 @@ def run_harness(ctx):
         ctx.problem("machinery", "harness panic", hp[0]["harness_panic"])
     # free-running scenarios (the real Watcher.Run): judged by their monitors only
     ctx.free_runs = [r for r in allrows if r.get("k") == "run" and "harness_panic" not in r]
+    ctx.fh_rows = [r for r in allrows if r.get("k") == "fh"]
     return [r for r in rows if "harness_panic" not in r]
 
 
@@ -76,7 +77,7 @@ def monitors(ctx, rows, prop, limit=6):
                 continue
             n += 1
             seen.setdefault(key, []).append((r, msg))
-    for r in getattr(ctx, "free_runs", []):
+    for r in getattr(ctx, "free_runs", []) + getattr(ctx, "fh_rows", []):
         for m in r.get("mon", []):
             p, key, msg = m.split("|", 2)
             if p != prop:
@@ -247,6 +248,32 @@ def model_compare(ctx, name, rows, ignore_reobs_fwd=False):
     if bad is None:
         return len(usable), None
     return len(usable), [usable[i] for i in bad]
+
+
+FH_HDR = ("From Coq Require Import List ZArith Bool.\nFrom WH Require Import lib.Wire gen.Extracted model.AlphWatcher.\nImport ListNotations.\nOpen Scope Z_scope.\n"
+          "Definition fc : cfg := {| c_gov := 0; c_bridge := 1; c_mainnet := false |}.\n"
+          "Definition fu : uevent := {| u_ev := {| e_uid := 1; e_block := 5; e_index := alph_wm_event_index; e_conv := None |}; u_msg := {| m_sender := 1; m_cl := 0; m_p0 := 1; m_tok := None |}; u_chain := None |}.\n"
+          "Definition fs (en : bool) : wstate := {| w_from := 0; w_inflight := None; w_pending := [ {| pb_hash := 5; pb_hdr := None; pb_evs := [fu] |} ]; w_enabled := en; w_dead := false |}.\n"
+          "(* outcome of one tick of _fetchHeight: 0 = nothing, 1 = the height reached the event loop (the pending final event is forwarded), 2 = error on errC *)\n"
+          "Definition fh_code (en : bool) (ans : option Z) : Z := let '(s', x) := fetch_height_tick fc (fs en) ans 100000 (fun _ => Some true) (fun _ => Some {| h_ts := 0; h_height := 0 |}) in\n"
+          "  match o_flag x with FFatal => 2 | FNone => if is_nil (o_fwd x) then 0 else 1 | _ => 9 end.\n")
+
+
+def fetch_height_compare(ctx, name):
+    """_fetchHeight (gate, request, hand-over) against the model's fetch_height_tick"""
+    rows = getattr(ctx, "fh_rows", [])
+    if not rows:
+        ctx.problem("correspondence", "go harness (alephium watcher)", "no _fetchHeight rows in the trace")
+        return
+    code = {"nothing": 0, "tick": 1, "fatal": 2}
+    bad = core.run_cases(ctx, name, rows, FH_HDR, "bool * option Z * Z",
+                         lambda r: "(%s, %s, %d)" % ("true" if r["enabled"] else "false", "None" if r["ans"] is None else "(Some %d)" % r["ans"], code.get(r["res"], 8)),
+                         "Definition ok (c : bool * option Z * Z) : bool := let '(en, ans, k) := c in fh_code en ans =? k.\n", nshards=1)
+    if bad is None:
+        return
+    ctx.cov["fetch_height_cases_compared_with_model"] = len(rows)
+    for i in bad[:2]:
+        ctx.problem("correspondence", "model fetch_height_tick differs from _fetchHeight", str({k: v for k, v in rows[i].items() if k != "mon"}), concrete=False, replay=rows[i])
 
 
 def first_divergence(ctx, name, row):
